@@ -108,3 +108,24 @@ PROPS = {
         "trusted_base": ["net/http ResponseWriter contract of the underlying writer (recording stub in the harness)"],
     },
 }
+
+def _mach_prop(assumptions, extra_streams_quick=None, extra_streams_thorough=None):
+    return {
+        "ties": MACH_TIES,
+        "streams": {"quick": (extra_streams_quick or []) + [MACH_QUICK], "thorough": (extra_streams_thorough or []) + [MACH_THOROUGH]},
+        "level": "proof",
+        "assumptions": [SYMBOLIC] + assumptions,
+        "trusted_base": MACH_TB,
+    }
+
+PROPS.update({
+    "C02": _mach_prop(["TOTP validity is an oracle (the real pquerna/otp under the harness)",
+                       "the SMS code is compared with the code in the session, unbound to the destination: known finding F9 (theorem C02_sms_verdict_ignores_user is its model-side witness)",
+                       "parking is proven for the totp hijacker at the head of the chain and for every chain once handled; the sms hijacker's parking and the both-factors case are covered by the differential stream and the monitor"]),
+    "C07": _mach_prop(["the codec theorem is over all byte strings; single-use is proven on the storage operation (one occurrence erased); history-level counting is monitored on real traces"]),
+    "C09": _mach_prop(["time stamps have one-second resolution (RFC 3339): known finding K1, with kernel-checked witness",
+                       "expire.Setup stamps on After(EventAuth) only: OAuth2 / registration / remember logins start the idle clock at the next request (DESIGN 6-F11)"]),
+    "C10": _mach_prop(["the logout response's own flash message is not 'left behind' state"]),
+    "C12": _mach_prop(["replay protection for TOTP needs the application's user type to implement UserOneTime"]),
+    "C14": _mach_prop(["'identifier separator' is the character ';' (sharp boundary proven)"]),
+})
